@@ -751,7 +751,16 @@ func binary(p *Parser, left Expr) (Expr, error) {
 	}
 	opToken := *p.previous
 
-	expr, err := p.expressionWithPrec(p.rule(opToken.Tag).prec)
+	// binary operators group left to right: the right operand only takes
+	// operators that bind tighter. compound assignment groups right to left.
+	prec := p.rule(opToken.Tag).prec
+	switch opToken.Tag {
+	case PlusEqual, MinusEqual, MultiplyEqual, DivideEqual:
+	default:
+		prec++
+	}
+
+	expr, err := p.expressionWithPrec(prec)
 	if err != nil {
 		return nil, err
 	}
